@@ -1,0 +1,107 @@
+//! Read-only hooks for external verification harnesses.  Only compiled with
+//! `--cfg cfb_verif`; not part of the public API.
+#![allow(missing_docs)]
+
+use std::cmp::Ordering;
+use std::io;
+use std::path::Path;
+
+use web_time::SystemTime;
+
+use crate::internal::{self, Timestamp};
+use crate::CompoundFile;
+
+pub fn compare_names(name1: &str, name2: &str) -> Ordering {
+    internal::path::compare_names(name1, name2)
+}
+
+pub fn validate_name(name: &str) -> io::Result<Vec<u16>> {
+    internal::path::validate_name(name)
+}
+
+pub fn name_chain_from_path(path: &Path) -> io::Result<Vec<&str>> {
+    internal::path::name_chain_from_path(path)
+}
+
+pub fn uppercase_char(c: char) -> char {
+    internal::path::verif_uppercase_char(c)
+}
+
+pub fn timestamp_from_system_time(time: SystemTime) -> u64 {
+    Timestamp::from_system_time(time).verif_value()
+}
+
+pub fn system_time_from_timestamp(value: u64) -> SystemTime {
+    Timestamp::verif_from_value(value).to_system_time()
+}
+
+#[derive(Clone, Debug, PartialEq, Eq)]
+pub struct VerifDirEntry {
+    pub name: String,
+    pub obj_type: u8,
+    pub color: u8,
+    pub left_sibling: u32,
+    pub right_sibling: u32,
+    pub child: u32,
+    pub clsid: [u8; 16],
+    pub state_bits: u32,
+    pub creation_time: u64,
+    pub modified_time: u64,
+    pub start_sector: u32,
+    pub stream_len: u64,
+}
+
+#[derive(Clone, Debug, PartialEq, Eq)]
+pub struct VerifDump {
+    pub num_sectors: u32,
+    pub difat_sector_ids: Vec<u32>,
+    pub difat: Vec<u32>,
+    pub fat: Vec<u32>,
+    pub free_sectors: Vec<u32>,
+    pub dir_start_sector: u32,
+    pub dir_entries: Vec<VerifDirEntry>,
+    pub minifat: Vec<u32>,
+    pub minifat_start_sector: u32,
+    pub free_mini_sectors: Vec<u32>,
+}
+
+impl<F> CompoundFile<F> {
+    /// Copies the in-memory allocation tables and directory.
+    pub fn verif_dump(&self) -> VerifDump {
+        let minialloc = self.minialloc.read().unwrap();
+        let (directory, minifat, minifat_start_sector, free_mini_sectors) =
+            minialloc.verif_parts();
+        let (allocator, dir_entries, dir_start_sector) =
+            directory.verif_parts();
+        let (num_sectors, difat_sector_ids, difat, fat, free_sectors) =
+            allocator.verif_parts();
+        VerifDump {
+            num_sectors,
+            difat_sector_ids: difat_sector_ids.to_vec(),
+            difat: difat.to_vec(),
+            fat: fat.to_vec(),
+            free_sectors: free_sectors.to_vec(),
+            dir_start_sector,
+            dir_entries: dir_entries
+                .iter()
+                .map(|e| VerifDirEntry {
+                    name: e.name.clone(),
+                    obj_type: e.obj_type.as_byte(),
+                    color: e.color.as_byte(),
+                    left_sibling: e.left_sibling,
+                    right_sibling: e.right_sibling,
+                    child: e.child,
+                    clsid: *e.clsid.as_bytes(),
+                    state_bits: e.state_bits,
+                    creation_time: e.creation_time.verif_value(),
+                    modified_time: e.modified_time.verif_value(),
+                    start_sector: e.start_sector,
+                    stream_len: e.stream_len,
+                })
+                .collect(),
+            minifat: minifat.to_vec(),
+            minifat_start_sector,
+            free_mini_sectors: free_mini_sectors.to_vec(),
+        }
+    }
+}
